@@ -104,5 +104,11 @@ func decToMinDec(dec float64, latitude bool) string {
 		format = "%03.0f-%07.4f%c"
 	}
 
-	return fmt.Sprintf(format, math.Abs(float64(deg)), math.Abs(min), sign)
+	absDeg, absMin := math.Abs(float64(deg)), math.Abs(min)
+	if absMin > 59.99995 {
+		// Would be printed as 60.0000 minutes: carry into the degrees.
+		absDeg, absMin = absDeg+1, 0
+	}
+
+	return fmt.Sprintf(format, absDeg, absMin, sign)
 }
